@@ -3,6 +3,10 @@
 //! every observable (`outputs`, `tokens`, `pretty_tokens`, `to_string`, `write`,
 //! `serialize_xml_string`, `serialize_xml_write`) is printed for the model, and the oracles of
 //! `ser_oracle.rs` evaluate C16 / C10 / C14 / C11 directly on the implementation.
+//! `ser xml_write_fail <k> …` / `ser write_fail <k> …`: the Write-based entry points into
+//! `common::FailingWriter { fail_at_call: k }` — outcome (`err:Io` at the refused call, `ok`, or the
+//! serialisation's own error if it comes first; never `panic`) and the bytes the writer holds, compared
+//! with the model (`serializeXmlWriteW (budget k)`); oracle `common::failing_writer_verdict`.
 use crate::common::{enc, guarded, Rng, Sink};
 use crate::ser_gen::{gen_params, gen_tree};
 use crate::ser_oracle;
@@ -343,6 +347,60 @@ pub fn observe(c: &Case, p: &Params, sink: &mut Sink) -> Observed {
             }
         } else if w.kind() != w2.kind() {
             ser_oracle::fail(sink, "C16", "C16:write-outcome-depends-on-sink", &format!("Vec sink: {}, chunked sink: {}", w.kind(), w2.kind()), c, p);
+        }
+    }
+
+    // a writer that fails (FailingWriter { fail_at_call }): outcome and the bytes the writer holds, compared with
+    // the model (`serializeXmlWriteW (budget k)`); oracle: Err(Io), never a panic, a prefix of the string result
+    {
+        use crate::common::{failing_writer_verdict, pick_budget, FailingWriter};
+        let mut rec = FailingWriter::counting();
+        let w0 = res_of(guarded(|| xot.serialize_xml_write(p.xml_params(c.vocab), node, &mut rec)));
+        let w0s = w0.show(|_| "ok".to_string());
+        let w0k = w0s.split(' ').next().unwrap().to_string();
+        let n = rec.calls;
+        let rot = sink.stats.get("io.xml.cases").copied().unwrap_or(0);
+        sink.stat("io.xml.cases");
+        sink.stat(&format!("io.xml.calls.{}", match n { 0 => "0", 1..=4 => "1-4", 5..=20 => "5-20", 21..=80 => "21-80", _ => "81+" }));
+        let mut ks = vec![pick_budget(n, rot)];
+        if matches!(w0, Res::Err(_)) {
+            // the serialisation itself fails after `n` calls: which error wins on either side of the boundary
+            ks.push((n.saturating_sub(1), "just-before-the-serialisation-error"));
+            ks.push((n, "up-to-the-serialisation-error"));
+        }
+        for (k, class) in ks {
+            let mut fw = FailingWriter::new(k);
+            let r = res_of(guarded(|| xot.serialize_xml_write(p.xml_params(c.vocab), node, &mut fw)));
+            let rs = r.show(|_| "ok".to_string());
+            sink.emit(format!("ser xml_write_fail {} {} {}", k, p.wire(), tree_wire), format!("{} {}", rs, enc(&String::from_utf8_lossy(&fw.data))));
+            let rk = rs.split(' ').next().unwrap().to_string();
+            sink.stat(&format!("io.xml.budget.{}", class));
+            sink.stat(&format!("io.xml.outcome.{}", if rk == "ok" || rk == "err:Io" || rk == "panic" { rk.as_str() } else { "serialisation-error" }));
+            if matches!(w0, Res::Err(_)) {
+                sink.stat(&format!("io.xml.priority.{}-wins", if rk == "err:Io" { "Io" } else { "serialisation-error" }));
+            }
+            match failing_writer_verdict(&rk, &fw, &w0k, &rec) {
+                Some((sig, what)) => ser_oracle::fail(sink, "C16", &format!("C16:{}", sig), &format!("serialize_xml_write: {}", what), c, p),
+                None => sink.stat("oracle.C16.failing-writer-ok"),
+            }
+        }
+        // Xot::write (default parameters) into a failing writer, every fourth case
+        if rot % 4 == 0 {
+            let mut rec = FailingWriter::counting();
+            let w0 = res_of(guarded(|| xot.write(node, &mut rec)));
+            let w0k = w0.show(|_| "ok".to_string()).split(' ').next().unwrap().to_string();
+            let (k, class) = pick_budget(rec.calls, rot / 4);
+            let mut fw = FailingWriter::new(k);
+            let r = res_of(guarded(|| xot.write(node, &mut fw)));
+            let rs = r.show(|_| "ok".to_string());
+            sink.emit(format!("ser write_fail {} {}", k, tree_wire), format!("{} {}", rs, enc(&String::from_utf8_lossy(&fw.data))));
+            let rk = rs.split(' ').next().unwrap().to_string();
+            sink.stat(&format!("io.write.budget.{}", class));
+            sink.stat(&format!("io.write.outcome.{}", if rk == "ok" || rk == "err:Io" || rk == "panic" { rk.as_str() } else { "serialisation-error" }));
+            match failing_writer_verdict(&rk, &fw, &w0k, &rec) {
+                Some((sig, what)) => ser_oracle::fail(sink, "C16", &format!("C16:{}", sig), &format!("Xot::write: {}", what), c, &Params::plain()),
+                None => sink.stat("oracle.C16.failing-writer-ok"),
+            }
         }
     }
 
